@@ -118,7 +118,7 @@ def check_roundtrip(ck, rng, payloads_abs, bits, iid, tag, session=None):
     return data, crypto, keys
 
 
-def tamper(ck, rng, data, crypto, keys, tag, thorough):
+def tamper(ck, rng, data, crypto, keys, tag, thorough, only_header=False):
     bits_, iid = len(keys[2]) * 8, keys[0]
     n = ICV[iid]
 
@@ -139,6 +139,14 @@ def tamper(ck, rng, data, crypto, keys, tag, thorough):
         else:
             ck.count('tamper.rejected')
     L = len(data)
+    if only_header:
+        # every bit of the IKE header and of the generic header of SK only (messages whose header fields sit at edge values)
+        for pos in range(min(L, 32)):
+            for bit in range(8):
+                b = bytearray(data)
+                b[pos] ^= 1 << bit
+                judge('bitflip.header.edge-message-id' if pos < 28 else 'bitflip.sk-header.edge-message-id', bytes(b))
+        return
     for pos in range(L):
         region = 'header' if pos < 28 else 'sk-header' if pos < 32 else 'iv' if pos < 48 else 'icv' if pos >= L - n else 'ciphertext'
         bits = range(8) if (thorough or region != 'ciphertext') else (pos % 8, (pos + 3) % 8, 7 - pos % 8)
@@ -250,6 +258,17 @@ def run(ck):
             ck.count('tamper.messages')
             ck.seen('tamper.kinds', (tag, bits, iid))
             tamper(ck, rng, data, crypto, keys, tag, thorough)
+            # the same content under Message IDs and flags at the EDGE of their range (0 is the first request an original responder or a rekeyed IKE_SA sends,
+            # 2**32 - 1 the last one): every bit of the two headers
+            for mid_ in (0, 1, 255, 256, 2 ** 31, 2 ** 32 - 1):
+                for flags_ in ((0, 2) if mid_ in (0, 1) else (si % 4,)):
+                    for resp_ in ((False, True) if mid_ == 0 else (bool(si % 2),)):
+                        m_e, _i, _o = build_message(rng, pls, crypto, exch=exch, mid=mid_, flags=flags_)
+                        m_e.is_response = resp_
+                        d_e = bytes(m_e.to_bytes())
+                        ck.count('tamper.messages_with_edge_message_ids')
+                        ck.seen('tamper.edge_ids', (tag, mid_, resp_))
+                        tamper(ck, rng, d_e, crypto, keys, tag + '+edge-id', thorough, only_header=True)
             # the layout the library also supports: cleartext payloads in front of SK (the checksum still covers everything before it)
             if (ri + si) % 3 == 0:
                 clear = [{'type': 41, 'critical': False, 'proto': 0, 'spi': b'', 'ntype': 16388, 'data': gen.rb(rng, 20)}] + \
@@ -447,6 +466,7 @@ def copies_case(ck, seed, kind, rng, kw):
 
 
 def verdict(ck):
+    ck.floor('(message kind, edge Message ID, request / response) classes whose two headers had every bit flipped', len(ck.sets['tamper.edge_ids']), 40)
     c = ck.counters
     ck.floor('modified copies of authentic requests fed to a real endpoint', c['endpoint.tampered_copies_of_authentic_requests'], 40)
     ck.floor('genuine requests answered after their modified copies', c['endpoint.genuine_request_answered_afterwards'], 30)
